@@ -126,6 +126,15 @@ def yields(fn_node):
           problems.append('tuple target')
           continue
         l2, e2 = push(levels, env, st.target.id, st.iter, [])
+        # leaving the loop early means later elements are never looked at
+        def same_loop(x):
+          yield x
+          if isinstance(x, (ast.For, ast.While, ast.FunctionDef, ast.Lambda)):
+            return
+          for ch in ast.iter_child_nodes(x):
+            yield from same_loop(ch)
+        if any(isinstance(x, (ast.Break, ast.Return)) for b in st.body for x in same_loop(b)):
+          problems.append('early exit from the loop over %s' % core.norm(st.iter)[:40])
         walk(st.body, l2, e2)
         continue
       if isinstance(st, ast.If):
